@@ -159,7 +159,7 @@ def pressure_event(cell):
     import WallGo as WG
 
     warnings.filterwarnings("ignore")
-    ev = {"e": "Pressure", "M": cell["M"], "dP": -1, "dGrad": -1, "paramsKept": False,
+    ev = {"e": "Pressure", "M": cell["M"], "dP": -1, "dGrad": -1, "paramsKept": False, "movedNear": False, "moved": False, "dPmoved": -1, "dPtails": -1,
           "ratioOK": bool(1 / 3 - 1e-9 <= cell["ratio"] <= 3 + 1e-9), "offsetOK": bool(abs(cell["offset"]) <= 2)}
     nfc = 1 if cell["model"] == "one" else 2
     wrel = np.array([1.0, cell["ratio"]][:nfc])
@@ -192,6 +192,31 @@ def pressure_event(cell):
         bg = m.c * T0**4
         dV = (float(m.V(lo[0] if nf == 1 else lo, T0)) + bg) - (float(m.V(hi[0] if nf == 1 else hi, T0)) + bg)
         ev["dP"] = quant.digits(abs(float(p) - dV) / abs(dV))
+        # the same wall on a grid whose two tails differ (what _updateGrid produces when out-of-equilibrium particles are
+        # switched on: inside tail ~ gamma, outside ~ 1/gamma): the identity does not depend on the tails
+        g = eom.grid
+        g.changePositionFalloffScale(3.0 * g.tailLengthInside, 1.0 * g.tailLengthOutside, g.wallThickness, g.wallCenter)
+        pt, _, _, _ = eom._intermediatePressureResults(WG.WallParams(widths=widths.copy(), offsets=offsets.copy()), vevLow, vevHigh, -1.0, 1.0, vmid, res0, T0, T0,
+                                                        temperatureProfileInput=T0 * np.ones(n), velocityProfileInput=vmid * np.ones(n), multiplier=0.0)
+        ev["dPtails"] = quant.digits(abs(float(pt) - dV) / abs(dV))
+        eom._updateGrid(wp, vmid)
+        # the default step (multiplier = 1) first moves the wall to the minimum of the action and then computes the pressure
+        # of THAT wall: the identity holds for it as well, with the gradient of the moved profile
+        wpb = WG.WallParams(widths=widths.copy(), offsets=offsets.copy())
+        _, wp3, _, _ = eom._intermediatePressureResults(wpb, vevLow, vevHigh, -1.0, 1.0, vmid, res0, T0, T0,
+                                                        temperatureProfileInput=T0 * np.ones(n), velocityProfileInput=vmid * np.ones(n), multiplier=1.0)
+        # ... as the solver's own iteration does: re-map the grid to the moved wall and take the step again from there
+        w3, o3 = np.asarray(wp3.widths, float).copy(), np.asarray(wp3.offsets, float).copy()
+        eom._updateGrid(WG.WallParams(widths=w3.copy(), offsets=o3.copy()), vmid)
+        p1, wp4, _, _ = eom._intermediatePressureResults(WG.WallParams(widths=w3.copy(), offsets=o3.copy()), vevLow, vevHigh, -1.0, 1.0, vmid, res0, T0, T0,
+                                                         temperatureProfileInput=T0 * np.ones(n), velocityProfileInput=vmid * np.ones(n), multiplier=1.0)
+        w4, o4 = np.asarray(wp4.widths, float), np.asarray(wp4.offsets, float)
+        tb = eom.wallThicknessBounds
+        inside = bool(np.all(w4 * Tn > 1.2 * tb[0]) and np.all(w4 * Tn < 0.85 * tb[1]) and np.max(w4) / np.min(w4) <= 3.0 and np.all(np.abs(o4) <= 2.0))
+        ev["movedNear"] = bool(inside and np.all(w4 / w3 < 1.5) and np.all(w4 / w3 > 1 / 1.5) and np.all(np.abs(o4 - o3) < 0.5))
+        ev["moved"] = bool(not (np.array_equal(w4, w3) and np.array_equal(o4, o3)))
+        ev["dPmoved"] = quant.digits(abs(float(p1) - dV) / abs(dV))
+        eom._updateGrid(wp, vmid)
         # gradient used in the integral vs a finite-difference derivative of the profile itself
         z = eom.grid.xiValues
         h = 1e-3 * float(np.min(widths))
